@@ -61,7 +61,10 @@ def symbol_term(x):
   return ('sym', mod, qn)
 
 
-def leaf_term(x):
+def leaf_term(x, num_norm=False):
+  if num_norm and isinstance(x, (bool, int, float)) and x == x and x not in (float('inf'), float('-inf')) and x == int(x):
+    # inside an opaque object compared with its own ==: True == 1 == 1.0
+    return ('L', 'num', repr(int(x)))
   if x is NO_VALUE:
     return ('L', 'NoValue', 'NO_VALUE')
   if isinstance(x, slice):
@@ -90,7 +93,10 @@ class Canon:
 
   def __init__(self, *, history=False, tags=True, sharing=True,
                fill_defaults=False, dict_order=False, callable_probe=False, probe_symbols=False,
-               no_identity=()):
+               no_identity=(), opaque_by_eq=False, num_norm=False, probe_twice=False):
+    self.probe_twice = probe_twice
+    self.opaque_by_eq = opaque_by_eq
+    self.num_norm = num_norm
     self.history = history
     self.tags = tags
     self.sharing = sharing
@@ -113,7 +119,7 @@ class Canon:
 
   def term(self, x):
     if is_leaf(x):
-      return leaf_term(x)
+      return leaf_term(x, self.num_norm)
     if is_symbol(x):
       if self.probe_symbols and getattr(x, '__module__', '').startswith('harness.vuni') and self.probe_depth < 3:
         self.probe_depth += 1
@@ -199,6 +205,14 @@ class Canon:
           r = x()
         except Exception as e:  # pylint: disable=broad-except
           return ('callable', ('raises', type(e).__name__ if isinstance(e, TypeError) else 'other'))
+        if self.probe_twice:
+          # a second call: what the two results share by identity shows up as a back-reference
+          try:
+            r2 = x()
+          except Exception as e:  # pylint: disable=broad-except
+            return ('callable', self.term(r), ('second-call-raises', type(e).__name__))
+          self.pins.append(r2)
+          return ('callable', self.term(r), self.term(r2))
         return ('callable', self.term(r))
       finally:
         self.probe_depth -= 1
@@ -208,6 +222,12 @@ class Canon:
     if hasattr(x, '__vrec__'):
       return ('vobj', type(x).__qualname__, self.term(x.__vrec__))
     if dataclasses.is_dataclass(x) and not isinstance(x, type):
+      if self.opaque_by_eq:
+        # a dataclass instance is an opaque leaf for Fiddle: it is what its own == says
+        sub = Canon(history=False, tags=False, sharing=False, num_norm=True)
+        return ('dc', type(x).__qualname__,
+                tuple((f.name, sub.term(getattr(x, f.name, ('<unset>',))))
+                      for f in dataclasses.fields(x) if f.compare))
       return ('dc', type(x).__qualname__,
               tuple((f.name, self.term(getattr(x, f.name, ('<unset>',))))
                     for f in dataclasses.fields(x)))
